@@ -1,6 +1,6 @@
 """C01 -- actor methods run one at a time; outcomes equal a sequential run."""
 import random
-import rt_common
+import rt_common, probe, gen_impl
 PID = "C01"
 
 
@@ -13,3 +13,10 @@ def run(rep):
          "fun (A V : Type) sem sem_slf dv => @C01_same_calls A V sem sem_slf dv {i} {w}"],
         rt_common.std_configs(rng, rep.tier, families=False),
         search="c03_search", search_what="two clients call every messaging method once with position-tagged arguments, fair schedule (Runtime/Explore.v mixed); anomalies (kind, client, seq): 1 other method/arguments, 3 never executed, 4 executed twice, 5/6 foreign or fabricated reply, 7 caller panicked while actor alive")
+    runs = []
+    for lib in gen_impl.LIBS:
+        for ch in ((0, 1) if rep.tier == "quick" else (0, 1, 2, 3)):
+            runs.append(["mixed", lib, ch, "clients=%d" % (4 if rep.tier == "quick" else 8), "calls=%d" % (60 if rep.tier == "quick" else 300), "seed=%d" % (rep.seed % 100000)])
+            if PID in ("C02", "C03"):
+                runs.append(["burst", lib, ch, "k=%d" % (ch + 3 if ch else 6)])
+    rt_common.impl_side(rep, PID, runs, lambda a, d: probe.oracle_mixed(d) if a[0] == "mixed" else probe.oracle_burst(d, None if a[2] == 0 else a[2]))
